@@ -1,6 +1,8 @@
 package gosym
 
 import (
+	"fmt"
+	"os"
 	"golang.org/x/tools/go/ssa"
 	"verif/engine/smt"
 )
@@ -251,6 +253,9 @@ func (ex *Exec) tryMerge(fr *frame, b *ssa.BasicBlock, c *smt.Term, j *ssa.Basic
 		ex.mergeFails[b]++
 		ex.stats.MergeAborts[why]++
 		if replaying {
+			if os.Getenv("VERIF_DEBUG") != "" {
+				fmt.Fprintf(os.Stderr, "DEBUG merge replay failure: why=%s posMark=%d trail=%v decided=%v\n", why, posMark, ex.trail, ex.decided)
+			}
 			panic(ex.unsupported("merge recorded in trail did not reproduce: %s", why))
 		}
 	}
